@@ -1318,7 +1318,19 @@ std::ostream& expression_t::print(std::ostream& os, bool old) const
         get(1).print(os << '[', old) << ']';
         break;
 
-    case UNARY_MINUS: embrace(os << '-', old, get(0), precedence); break;
+    case UNARY_MINUS: {
+        // a negative literal directly after the minus sign would read as the token "--"
+        const auto& operand = get(0);
+        const bool negativeLiteral =
+            operand.get_kind() == CONSTANT &&
+            (operand.get_type().is_double() ? operand.get_double_value() < 0
+                                            : (operand.get_type().is_integral() && operand.get_value() < 0));
+        if (negativeLiteral)
+            operand.print(os << "-(", old) << ')';
+        else
+            embrace(os << '-', old, operand, precedence);
+        break;
+    }
 
     case POST_DECREMENT:
     case POST_INCREMENT: embrace(os, old, get(0), precedence) << (get_kind() == POST_DECREMENT ? "--" : "++"); break;
